@@ -475,6 +475,23 @@ func genC14(tier string) []Scenario {
 				big[key] = i
 				step(stOp{kind: "set", k: key, v: i})
 			}
+			// a merge LARGER than the store that shares every other key with it (new values win),
+			// and one smaller than the store
+			over := map[string]any{}
+			for i := 0; i < 2*k+1; i++ {
+				if i%2 == 0 {
+					over[fmt.Sprintf("k%03d", i/2)] = fmt.Sprintf("merged-%d", i)
+				} else {
+					over[fmt.Sprintf("x%03d", i)] = i
+				}
+			}
+			step(stOp{kind: "merge", m: over})
+			step(stOp{kind: "merge", m: map[string]any{"k000": "again", "x001": nil}})
+			for i := 0; i < 2*k+1; i++ {
+				if i%2 == 1 {
+					step(stOp{kind: "del", k: fmt.Sprintf("x%03d", i)})
+				}
+			}
 			step(stOp{kind: "hold"})
 			for i := 0; i < k; i++ {
 				step(stOp{kind: "del", k: fmt.Sprintf("k%03d", i)})
